@@ -56,8 +56,19 @@ theorem traceOk_mem {g : Graph} {tr : List Ev} (h : TraceOk g tr) {e : Ev} (he :
 
 /-! ### The monitor decides the declarative property -/
 
+theorem traceOk2_nil (g : Graph) : TraceOk2 g [] := by
+  intro pre e post h
+  cases pre <;> simp at h
+
+theorem traceOk2_snoc {g : Graph} {tr : List Ev} {e : Ev} (h : TraceOk2 g tr) (he : Ok2 g tr e) :
+    TraceOk2 g (tr ++ [e]) := by
+  intro pre e' post hs
+  rcases split_snoc hs with ⟨h1, h2, _⟩ | ⟨post', _, h2⟩
+  · subst h1; subst h2; exact he
+  · exact h pre e' post' h2
+
 theorem acceptsFrom_iff (g : Graph) (pre tr : List Ev) :
-    acceptsFrom g pre tr = true ↔ ∀ a e b, tr = a ++ e :: b → Ok g (pre ++ a) e := by
+    acceptsFrom g pre tr = true ↔ ∀ a e b, tr = a ++ e :: b → Ok g (pre ++ a) e ∧ Ok2 g (pre ++ a) e := by
   induction tr generalizing pre with
   | nil =>
     simp only [acceptsFrom, true_iff]
@@ -82,10 +93,12 @@ theorem acceptsFrom_iff (g : Graph) (pre tr : List Ev) :
       have := h (x :: a) e b (by simp [hs])
       simpa [List.append_assoc] using this
 
-theorem accepts_iff (g : Graph) (tr : List Ev) : accepts g tr = true ↔ TraceOk g tr := by
-  unfold accepts TraceOk
+theorem accepts_iff (g : Graph) (tr : List Ev) : accepts g tr = true ↔ TraceOk g tr ∧ TraceOk2 g tr := by
+  unfold accepts TraceOk TraceOk2
   rw [acceptsFrom_iff]
-  simp
+  simp only [List.nil_append]
+  exact ⟨fun h => ⟨fun a e b hs => (h a e b hs).1, fun a e b hs => (h a e b hs).2⟩,
+    fun h a e b hs => ⟨h.1 a e b hs, h.2 a e b hs⟩⟩
 
 /-! ### Consequences of `wf` -/
 
@@ -181,5 +194,64 @@ theorem WF.topRole {g : Graph} (h : WF g) {t : Nat} (ht : t < g.n) (hr : g.role 
   unfold Graph.role at hr
   simp only [hr, Bool.and_eq_true, beq_iff_eq, List.contains_eq_mem, decide_eq_true_eq] at this
   exact ⟨this.2, this.1.2⟩
+
+theorem role_out {g : Graph} {t : Nat} (h : g.n ≤ t) : g.role t = .top := by
+  unfold Graph.role; rw [task_out h]; rfl
+
+theorem WF.tryOwner {g : Graph} (h : WF g) {y : Nat} (hy : y < g.tries.length) :
+    (g.tryd y).owner < g.n ∧ g.cmdAt (g.tryd y).owner (g.tryd y).idx = some (.try_ y) ∧
+    (g.tryd y).body < g.n ∧ g.role (g.tryd y).body = .tbody y := by
+  have := h.tryd y hy
+  unfold tryOk at this
+  simp only [Bool.and_eq_true, decide_eq_true_eq, beq_iff_eq] at this
+  exact ⟨this.1.1.1.1.1.1, this.1.1.1.1.1.2, this.1.1.1.1.2, this.1.1.1.2⟩
+
+theorem WF.tryHandlers {g : Graph} (h : WF g) {y : Nat} (hy : y < g.tries.length) :
+    (∀ x, (g.tryd y).succ = some x → x < g.n ∧ g.role x = .hsucc y) ∧
+    (∀ x, (g.tryd y).fail = some x → x < g.n ∧ g.role x = .hfail y) ∧
+    (∀ x, (g.tryd y).fin = some x → x < g.n ∧ g.role x = .hfin y) := by
+  have := h.tryd y hy
+  unfold tryOk at this
+  simp only [Bool.and_eq_true, decide_eq_true_eq, beq_iff_eq] at this
+  refine ⟨fun x hx => ?_, fun x hx => ?_, fun x hx => ?_⟩
+  · have h1 := this.1.1.2; rw [hx] at h1; simpa using h1
+  · have h1 := this.1.2; rw [hx] at h1; simpa using h1
+  · have h1 := this.2; rw [hx] at h1; simpa using h1
+
+theorem WF.tbody {g : Graph} (h : WF g) {t y : Nat} (ht : t < g.n) (hr : g.role t = .tbody y) :
+    y < g.tries.length ∧ (g.tryd y).body = t ∧ g.ctx t = y + 1 ∧
+    g.depth t = g.depth (g.tryd y).owner + 1 ∧ g.waits t = [] := by
+  have := h.role t ht
+  unfold roleOk at this
+  unfold Graph.role at hr
+  simp only [hr, Bool.and_eq_true, beq_iff_eq, decide_eq_true_eq, List.isEmpty_iff] at this
+  exact ⟨this.1.1.1.1, this.1.1.1.2, this.1.1.2, this.1.2, this.2⟩
+
+theorem WF.hsucc {g : Graph} (h : WF g) {t y : Nat} (ht : t < g.n) (hr : g.role t = .hsucc y) :
+    y < g.tries.length ∧ (g.tryd y).succ = some t ∧ g.ctx t = g.ctx (g.tryd y).owner ∧
+    g.depth t = g.depth (g.tryd y).owner + 1 ∧ g.waits t = [] := by
+  have := h.role t ht
+  unfold roleOk at this
+  unfold Graph.role at hr
+  simp only [hr, Bool.and_eq_true, beq_iff_eq, decide_eq_true_eq, List.isEmpty_iff] at this
+  exact ⟨this.1.1.1.1, this.1.1.1.2, this.1.1.2, this.1.2, this.2⟩
+
+theorem WF.hfail {g : Graph} (h : WF g) {t y : Nat} (ht : t < g.n) (hr : g.role t = .hfail y) :
+    y < g.tries.length ∧ (g.tryd y).fail = some t ∧ g.ctx t = g.ctx (g.tryd y).owner ∧
+    g.depth t = g.depth (g.tryd y).owner + 1 ∧ g.waits t = [] := by
+  have := h.role t ht
+  unfold roleOk at this
+  unfold Graph.role at hr
+  simp only [hr, Bool.and_eq_true, beq_iff_eq, decide_eq_true_eq, List.isEmpty_iff] at this
+  exact ⟨this.1.1.1.1, this.1.1.1.2, this.1.1.2, this.1.2, this.2⟩
+
+theorem WF.hfin {g : Graph} (h : WF g) {t y : Nat} (ht : t < g.n) (hr : g.role t = .hfin y) :
+    y < g.tries.length ∧ (g.tryd y).fin = some t ∧ g.ctx t = g.ctx (g.tryd y).owner ∧
+    g.depth t = g.depth (g.tryd y).owner + 1 ∧ g.waits t = [] := by
+  have := h.role t ht
+  unfold roleOk at this
+  unfold Graph.role at hr
+  simp only [hr, Bool.and_eq_true, beq_iff_eq, decide_eq_true_eq, List.isEmpty_iff] at this
+  exact ⟨this.1.1.1.1, this.1.1.1.2, this.1.1.2, this.1.2, this.2⟩
 
 end Goat.Pipeline
